@@ -17,6 +17,7 @@ evaluated on the real outputs, independently of the model.
 """
 import json
 import math
+import warnings
 import os
 import signal
 import subprocess
@@ -244,6 +245,65 @@ def _npint_call(ctx, item, case, f, kind, *ints):
     return _call(f, *args)
 
 
+_NARROW = {'int8': np.int8, 'uint8': np.uint8, 'int16': np.int16, 'uint16': np.uint16}
+# Largest argument for which the CLEAN tree returns the convention's answer when the index / orders arrive as a narrow NumPy
+# integer (measured exhaustively on the pinned tree; beyond it the implementation's own arithmetic — 8*idx, n*(n+2),
+# j - max_j — leaves the type: documented outside the property, see notes/findings_C11.txt).  Every argument up to the
+# limit is run, so an edit that NARROWS a working range (e.g. integer arithmetic where a float promotion used to be) is
+# caught with a concrete input.  Forward maps: largest index j; inverse maps: largest n such that every valid (n, m)
+# (m >= 0 only for unsigned types) is right; 16-bit Fringe inverse: all pairs to n = 400 / 700 (tier) plus the
+# extreme columns m in {+-n, +-(n-2), 0|1} up to the point where n + |m| leaves the type.
+NARROW_FWD = {'ansi': {'int8': 14, 'uint8': 0, 'int16': 4094, 'uint16': 0},
+              'noll': {'int8': 15, 'uint8': 1, 'int16': 4095, 'uint16': 1},
+              'fringe': {'int8': 127, 'uint8': 255, 'int16': 32767, 'uint16': 65535},
+              'xy': {'int8': 120, 'uint8': 253, 'int16': 32640, 'uint16': 65341}}
+NARROW_INV = {'ansi': {'int8': 9, 'uint8': 14, 'int16': 179, 'uint16': 254},
+              'fringe': {'int8': 64, 'uint8': 127, 'int16': 16383, 'uint16': 32767}}
+
+
+def _narrow_pairs(ctx, conv, kind):
+    """valid (n, m) inside the clean tree's working range for the inverse map `conv` and NumPy type `kind`"""
+    top = NARROW_INV[conv][kind]
+    signed = not kind.startswith('u')
+    full = min(top, ctx.scale(400, 700))
+    out = [(n, m) for n in range(full + 1) for m in range(-n if signed else n % 2, n + 1, 2)]
+    step = max(1, (top - full) // ctx.scale(400, 4000))
+    for n in list(range(full + 1, top + 1, step)) + [top - 1, top]:
+        if n <= full:
+            continue
+        for a in (n, n - 2, n % 2):
+            for m in ((a, -a) if signed and a else (a,)):
+                out.append((n, m))
+    return out
+
+
+def _narrow_forward(ctx, conv, f, lo, model_all, real):
+    """forward map on int8 / uint8 / int16 / uint16 indices, every index of the clean tree's working range"""
+    item = f'{conv}_narrow'
+    for kind, mk in _NARROW.items():
+        top = min(NARROW_FWD[conv][kind], lo + len(model_all) - 1)
+        nbad = 0
+        for j in range(lo, top + 1):
+            mm = (int(model_all[j - lo][0]), int(model_all[j - lo][1]))
+            st, val = _call(f.raw, mk(j))
+            if st == 'ok' and val == mm:
+                continue
+            if (int(real[j - lo][0]), int(real[j - lo][1])) != mm:
+                continue         # wrong for the Python int too: the sweep reports it
+            nbad += 1
+            if nbad <= 2:
+                case = {'j': j, 'dtype': kind}
+                got = val if st == 'ok' else f'{st}: {val}'
+                ctx.disagree(item, case, got, list(mm))
+                ctx.pred_fail(item, case, f'{conv}({kind}({j})) = {got}, but {mm} for the Python int {j} (the pinned tree '
+                              f'is right for every {kind} index up to {NARROW_FWD[conv][kind]})')
+        n = max(0, top + 1 - lo)
+        ctx.evaluations += n
+        ctx.items[item] = ctx.items.get(item, 0) + n
+        ctx.hist[f'{item}:{kind}'] += n
+        ctx._distinct.update(f'{item}:{kind}:{j}' for j in range(lo + 1, top + 1))
+
+
 def _npint_check(ctx, conv, f, lo, J, model_all, real):
     """the maps on np.int64 / np.int32 scalars and 0-d integer arrays: same answers as on Python ints"""
     js = set(range(lo, lo + 120))
@@ -429,6 +489,7 @@ def _chunks(lo, hi, size):
 
 
 def correspondence(ctx):
+    warnings.simplefilter('ignore', RuntimeWarning)      # NumPy overflow warnings of fixed-width inputs: results are compared, not warnings
     fwd, inv = _impl()
     J = ctx.scale(10 ** 5, 10 ** 6)
     if ctx.widen:
@@ -457,6 +518,10 @@ def correspondence(ctx):
     for conv in ('ansi', 'fringe', 'noll'):
         lines.append(f'invs {conv} ' + ' '.join(f'{n} {m}' for n, m in vpairs))
     lines.append('invs xy ' + ' '.join(f'{a} {b}' for a, b in xpairs))
+    npairs = {(conv, kind): _narrow_pairs(ctx, conv, kind) for conv in ('ansi', 'fringe') for kind in _NARROW}
+    for key, prs in npairs.items():
+        for a in range(0, len(prs), 5000):
+            lines.append(f'invs {key[0]} ' + ' '.join(f'{n} {m}' for n, m in prs[a:a + 5000]))
     rep = iter(C.lean_driver('C11', lines))
 
     # ------------------------------------------------------------ order independence (the first calls of this process)
@@ -539,6 +604,7 @@ def correspondence(ctx):
             ctx.evaluations += len(seq2)
             ctx.items[f'{conv}_order'] += len(seq2)
             _npint_check(ctx, conv, f, lo, J, model_all, real)
+            _narrow_forward(ctx, conv, f, lo, model_all, real)
         # round trip through the real inverse, every index
         if conv in inv:
             g = inv[conv].raw      # 10^5..10^6 calls: not logged one by one
@@ -634,6 +700,33 @@ def correspondence(ctx):
         if back != ('ok', (a, b)):
             ctx.disagree('xy_inverse', case, back[1], [a, b])
             ctx.pred_fail('xy_inverse', {'j': jm}, f'xy({jm}) = {back[1]}; the monomial at d(d+1)/2 + n + 1 is x^{a} y^{b}')
+
+    # ------------------------------------------------------------ inverse maps on narrow NumPy integer orders
+    for (conv, kind), prs in npairs.items():
+        mj = []
+        for a in range(0, len(prs), 5000):
+            mj += list(map(int, next(rep).split()))
+        g = inv[conv].raw
+        mk = _NARROW[kind]
+        item = f'{conv}_inverse_narrow'
+        nbad = 0
+        for (n, m), jm in zip(prs, mj):
+            st, val = _call(g, mk(n), mk(m))
+            if st == 'ok' and val == (jm,):
+                continue
+            if _call(g, n, m) != ('ok', (jm,)):
+                continue          # wrong for Python ints too: reported by the <conv>_inverse item
+            nbad += 1
+            if nbad <= 2:
+                case = {'n': n, 'm': m, 'dtype': kind}
+                got = val if st == 'ok' else f'{st}: {val}'
+                ctx.disagree(item, case, got, jm)
+                ctx.pred_fail(item, case, f'inverse({kind}({n}), {kind}({m})) = {got}, but {jm} for Python ints, and '
+                              f'{conv}({jm}) = ({n}, {m}) (the pinned tree is right for every valid {kind} pair up to n = {NARROW_INV[conv][kind]})')
+        ctx.evaluations += len(prs)
+        ctx.items[item] = ctx.items.get(item, 0) + len(prs)
+        ctx.hist[f'{item}:{kind}'] += len(prs)
+        ctx._distinct.update(f'{item}:{kind}:{n}:{m}' for n, m in prs)
 
     # ------------------------------------------------------------ malformed stream: same accept / reject behaviour
     for j in (0, -1, -7):
@@ -738,15 +831,16 @@ def replay(inp):
     print('replaying', item, {k: v for k, v in c.items() if k != 'sequence'})
     if 'dtype' in c:
         r = _raw()
+        kinds = {**_NPKINDS, **_NARROW}
         if 'j' in c:
             j = c['j']
-            x = _NPKINDS[c['dtype']](j)
+            x = kinds[c['dtype']](j)
             got = _call(r[conv], x)
             rule = closed_form(conv, j)
             print(f'{conv}({c["dtype"]}({j})) -> {got}; {conv}({j}) on a Python int -> {_call(r[conv], j)}; the convention has {rule}')
             return got != ('ok', tuple(rule))
         n, m = c['n'], c['m']
-        got = _call(r['inv_' + conv], _NPKINDS[c['dtype']](n), _NPKINDS[c['dtype']](m))
+        got = _call(r['inv_' + conv], kinds[c['dtype']](n), kinds[c['dtype']](m))
         ref = _call(r['inv_' + conv], n, m)
         back = _call(r[conv], got[1][0]) if got[0] == 'ok' else None
         print(f'inverse({c["dtype"]}({n}), {c["dtype"]}({m})) -> {got}; on Python ints -> {ref}; forward of it -> {back}')
@@ -836,7 +930,10 @@ MANIFEST_ENTRY = {
              'imported through prysm.polynomials.<name>): every index up to 10^5 (quick) / 10^6 (thorough) in all four conventions; '
              'k^2-1,k^2,k^2+1 / triangular numbers +-1 and log-uniform random indices with square-root arguments up to just below '
              '2^52 (Noll / XY up to the rows their O(sqrt j) list / loops reach); every valid (n,m), n<=400, through the inverse '
-             'maps; NumPy integer inputs (np.int64, np.int32 scalars, 0-d arrays; inverse maps too); order independence '
+             'maps; NumPy integer inputs (np.int64, np.int32 scalars, 0-d arrays; inverse maps too); narrow NumPy integers (int8, '
+             'uint8, int16, uint16) on EVERY argument of the range where the pinned tree is right (table NARROW_FWD / NARROW_INV in '
+             'harness/c11.py, e.g. fringe_to_nm all of the type, nm_to_fringe int16 up to n+|m| = 32766; beyond it the pinned '
+             'tree itself overflows, documented outside the property); order independence '
              '(non-ascending call sequences before and after the sweeps, replay carries the call sequence). The property '
              'predicates are evaluated directly on the real outputs as well. When a translator item is untranslatable (module '
              'state, unknown construct, keyword on sqrt/ceil, decorator, extra parameters, re-bound public name) the run prints '
